@@ -48,6 +48,23 @@ def _t_slowfail(v, ticks=0, how='rpc'):
     return ('exception', ('RuntimeError', v), ('slowfail', (v, ticks, how), {}))
 
 
+def _is_ipv4(s):
+    parts = s.split('.') if isinstance(s, str) else []
+    return len(parts) == 4 and all(p.isdigit() and 0 <= int(p) <= 255 and (p == '0' or not p.startswith('0')) for p in parts)
+
+
+def _t_js_checked(ip):
+    if not _is_ipv4(ip):
+        return ('invalid', None, None)
+    return ('result', ['js_checked', ip], ('js_checked', (ip,), {}))
+
+
+def _t_js_loose(s):
+    if not isinstance(s, str):
+        return ('invalid', None, None)
+    return ('result', ['js_loose', s], ('js_loose', (s,), {}))       # no format checker configured: any string conforms
+
+
 def _t_byid(id, extra=0): return ('result', ['byid', id, extra], ('byid', (id, extra), {}))
 def _t_wrapped(a, b=0): return ('result', ['wrapped', a, b], ('wrapped', (a, b), {}))
 def _t_vm(a, b=0): return ('result', ['vm', a, b], ('view.vm', (a, b), {}))
@@ -55,7 +72,7 @@ def _t_vm(a, b=0): return ('result', ['vm', a, b], ('view.vm', (a, b), {}))
 
 TWINS = {
     'ok': _t_ok, 'noargs': _t_noargs, 'echo': _t_echo, 'kwonly': _t_kwonly, 'rpcerr': _t_rpcerr,
-    'typed': _t_typed, 'slowfail': _t_slowfail, 'byid': _t_byid, 'wrapped': _t_wrapped, 'whoami': _t_whoami, 'ctxp': _t_ctxp, 'slow': _t_slow, 'fac1': _t_fac1, 'fac2': _t_fac2, 'boom': _t_boom, 'ctxm': _t_ctxm, 'view.vm': _t_vm,
+    'typed': _t_typed, 'js_checked': _t_js_checked, 'js_loose': _t_js_loose, 'slowfail': _t_slowfail, 'byid': _t_byid, 'wrapped': _t_wrapped, 'whoami': _t_whoami, 'ctxp': _t_ctxp, 'slow': _t_slow, 'fac1': _t_fac1, 'fac2': _t_fac2, 'boom': _t_boom, 'ctxm': _t_ctxm, 'view.vm': _t_vm,
 }
 
 
@@ -122,8 +139,12 @@ def element(req: Dict[str, Any], exp: Expected, ctx_token: Any) -> Tuple[Any, st
             resp = err(id_, -32602)
         else:
             outcome, value, call = twin(*bound.args, **bound.kwargs)
-            exp.executions.append(call)
-            if outcome == 'result':
+            if outcome != 'invalid':
+                exp.executions.append(call)
+            if outcome == 'invalid':
+                kind = 'unbound'
+                resp = err(id_, -32602)
+            elif outcome == 'result':
                 kind = 'ok'
                 resp = {'jsonrpc': '2.0', 'id': id_, 'result': value}
             elif outcome == 'ctx-result':
